@@ -233,6 +233,12 @@ func (m *Machine) vrtEnvCall(name string, a []Value) (Value, bool) {
 		return c.Bool(true), true
 	case "Writer":
 		return IfaceV{t: discardType, v: &DiscardObj{}}, true
+	case "FailWriter":
+		n, ok := a[0].(*Term).ConstInt64()
+		if !ok {
+			m.unsupported("FailWriter with symbolic count")
+		}
+		return IfaceV{t: discardType, v: &FailWriterObj{left: int(n)}}, true
 	case "LogHasPrefix":
 		i, _ := a[0].(*Term).ConstInt64()
 		if int(i) >= len(e.log) {
@@ -563,6 +569,30 @@ func (m *Machine) envIntrinsic(name string, fn *ssa.Function, args []Value) (Val
 		fo.f.data = nd
 		fo.f.writes++
 		e.event(fmt.Sprintf("truncate fd%d %d", fo.id, sz))
+		return nilErr, true
+	case "syscall.Fallocate":
+		// mode 0: make sure [off, off+len) is allocated - grows the file, never shrinks it
+		m.stub(name)
+		m.sideEffect(name)
+		fd, _ := args[0].(*Term).ConstInt64()
+		mode, ok1 := args[1].(*Term).ConstInt64()
+		off, ok2 := args[2].(*Term).ConstInt64()
+		ln, ok3 := args[3].(*Term).ConstInt64()
+		if !ok1 || !ok2 || !ok3 || mode != 0 || off < 0 || ln <= 0 || off+ln > 1<<20 {
+			m.unsupported("syscall.Fallocate with these arguments")
+		}
+		if fd < 0 || int(fd) >= len(e.fds) || !e.fds[fd].open {
+			return m.newErr("fallocate: bad file descriptor", nil), true
+		}
+		fo := e.fds[fd]
+		if fo.flags&3 == oRDONLY {
+			return m.newErr("fallocate: bad file descriptor (not open for writing)", nil), true
+		}
+		for int64(len(fo.f.data)) < off+ln {
+			fo.f.data = append(fo.f.data, c.IntI(SU8, 0))
+		}
+		fo.f.writes++
+		e.event(fmt.Sprintf("fallocate fd%d %d", fo.id, off+ln))
 		return nilErr, true
 	case "(*os.File).Name":
 		fo := fileObjOf(args[0])
